@@ -51,6 +51,14 @@ pub struct Force {
     pub ccr: Option<u8>,
     /// C01 keeps operands in RAM/DRAM/vector; upper byte of address registers per `upper`
     pub no_upper: bool,
+    /// explicit effective address (C08: may be anywhere, also unmapped)
+    pub target: Option<u32>,
+    /// explicit displacement (16-bit forms use the low 16 bits)
+    pub disp: Option<u32>,
+    /// explicit upper byte (bits 31-24) of the address register
+    pub upper: Option<u32>,
+    /// explicit absolute address operand for the @aa forms
+    pub abs: Option<u32>,
 }
 
 /// Build one MOV case. Returns (case, insn, ea, moved value).
@@ -72,6 +80,10 @@ pub fn build(e: &mut Ent, f: &Force) -> (StepCase, Insn, Option<u32>, u32) {
     let ccr = f.ccr.unwrap_or_else(|| e.u8());
     let target = match mode {
         Mode::RR | Mode::Imm => None,
+        Mode::A8 if f.abs.is_some() => Some(0xffff00 | (f.abs.unwrap() & 0xff)),
+        Mode::A16 if f.abs.is_some() => Some(((f.abs.unwrap() as u16 as i16) as i32 as u32) & MASK24),
+        Mode::A24 if f.abs.is_some() => Some(f.abs.unwrap() & MASK24),
+        _ if f.target.is_some() => f.target.map(|t| t & MASK24),
         Mode::A8 => Some(0xffff00 + e.below(0x20)),
         Mode::A16 => Some(if e.chance(1, 3) {
             e.addr_in(Region::Vector, size, align)
@@ -84,8 +96,8 @@ pub fn build(e: &mut Ent, f: &Force) -> (StepCase, Insn, Option<u32>, u32) {
     };
     let ea = match mode {
         Mode::Ind => Some(Ea::Ind(areg)),
-        Mode::D16 => Some(Ea::D16(areg, disp16_mix(e))),
-        Mode::D24 => Some(Ea::D24(areg, disp24_mix(e))),
+        Mode::D16 => Some(Ea::D16(areg, f.disp.map(|d| d as u16).unwrap_or_else(|| disp16_mix(e)))),
+        Mode::D24 => Some(Ea::D24(areg, f.disp.map(|d| d & MASK24).unwrap_or_else(|| disp24_mix(e)))),
         Mode::IncDec => Some(if load { Ea::Post(areg) } else { Ea::Pre(areg) }),
         Mode::A8 => Some(Ea::A8(target.unwrap() as u8)),
         Mode::A16 => Some(Ea::A16(target.unwrap() as u16)),
@@ -104,7 +116,10 @@ pub fn build(e: &mut Ent, f: &Force) -> (StepCase, Insn, Option<u32>, u32) {
         Mode::Imm => {}
         _ => {
             if load {
-                patches.push((target.unwrap(), be_bytes(sz, value)));
+                let t = target.unwrap();
+                if (0..size).all(|i| crate::refmodel::exec::mapped(t.wrapping_add(i))) && !(0..size).any(|i| crate::engine::emu::is_peripheral_reg(t.wrapping_add(i)) || (0xfee000..=0xfee0ff).contains(&t.wrapping_add(i))) {
+                    patches.push((t, be_bytes(sz, value)));
+                }
             } else {
                 put_reg(&mut er, sz, dreg, value);
             }
@@ -114,7 +129,7 @@ pub fn build(e: &mut Ent, f: &Force) -> (StepCase, Insn, Option<u32>, u32) {
     if let Some(ea) = ea {
         if ea.reg().is_some() {
             let low = reg_for_ea(&ea, target.unwrap(), sz);
-            let upper = if f.no_upper { 0 } else { e.upper_byte() };
+            let upper = if f.no_upper { 0 } else { f.upper.unwrap_or_else(|| e.upper_byte()) };
             er[areg as usize] = low | upper;
             if !load {
                 // the data register may share ERn with the address register (non +/- forms): the value
